@@ -124,7 +124,9 @@ func maxInt(a, b int) int {
 	return b
 }
 
-// forced: "" random | "long-stop" | "long-cancel": a long first start delay ended by Stop / cancel
+// forced: "" random | "long-stop" | "long-cancel": a long first start delay ended by Stop / cancel |
+// "immediate-stop": Stop called by the starting goroutine right after Start returned (the runner goroutine has
+// most likely not executed its first statement yet)
 func c18random(c *ctx, k int, forced string) c18trace {
 	ns := 1 + c.rng.Intn(3)
 	var sch []raterun.Schedule
@@ -134,7 +136,9 @@ func c18random(c *ctx, k int, forced string) c18trace {
 		if i == 0 && c.rng.Intn(3) > 0 {
 			d = 0
 		}
-		if i == 0 && (c.rng.Intn(8) == 0 || forced != "") {
+		if forced == "immediate-stop" {
+			d = 0
+		} else if i == 0 && (c.rng.Intn(8) == 0 || forced != "") {
 			d = 4 * time.Second // a long first start delay: Stop/cancel must still end the goroutine promptly
 		}
 		f := time.Duration(2+c.rng.Intn(14)) * time.Millisecond
@@ -168,6 +172,17 @@ func c18random(c *ctx, k int, forced string) c18trace {
 	defer cancel()
 	rec.add(rEv{K: "start", C: rec.us()})
 	rn.Start(ctx)
+	if forced == "immediate-stop" {
+		rec.add(rEv{K: "stopcall", C: rec.us()})
+		rn.Stop()
+		rec.add(rEv{K: "stopret", C: rec.us()})
+		time.Sleep(150 * time.Millisecond)
+		rec.add(rEv{K: "after", D: int64(maxInt(c18leaks()-g0, 0))})
+		rec.mu.Lock()
+		tr.Ev = rec.ev
+		rec.mu.Unlock()
+		return tr
+	}
 	nops := 1 + c.rng.Intn(4)
 	if forced != "" {
 		nops = 0 // still inside the first start delay when Stop / cancel arrives
@@ -232,6 +247,8 @@ func init() {
 					forced = "long-stop"
 				} else if k == 1 {
 					forced = "long-cancel"
+				} else if k >= 2 && k <= 5 {
+					forced = "immediate-stop"
 				}
 				t := c18random(c, k, forced)
 				mu.Lock()
